@@ -62,7 +62,7 @@ func runC18(c *Ctx) {
 	r.Rule("R18-sources", "no code reachable from a search, evaluator or exploration reads the clock, the global random source or the environment; every rand.New is seeded from an explicit parameter; the engine builds its noise generator from (noise option, seed), afresh on every reset", 5)
 	r.Rule("R18-maporder", "no order-sensitive iteration over a map in code reachable from searches (two reviewed, commutative exceptions are frozen by name)", 1)
 	r.Rule("R18-hashfree", "repetition decisions use the position hash only as a pre-filter of the exact comparison, so results do not depend on the hash seed", 1)
-	r.Rule("R18-state", "searches, evaluators and explorations write no package-level variable and no state that outlives the call, except per-search run objects, the exclusive board, the table - and the one frozen evaluator (sargon.Points) whose state is re-initialised by its wrapper before every search", 3)
+	r.Rule("R18-state", "searches, evaluators and explorations write no package-level variable and no state that outlives the call, except per-search run objects, objects created by the call itself, the exclusive board and the table; the SARGON evaluator's baseline is re-initialised by its wrapper before every search, completely and without reading old state", 3)
 
 	roots := searchRoots(c)
 	if len(roots) < 10 {
@@ -310,10 +310,11 @@ func c18State(c *Ctx, reach map[*ssa.Function][]*ssa.Function) {
 		}
 		return false
 	}
-	frozen := map[string]string{
-		"sargon.Points.side0": "re-initialised by Points.Reset, which sargon.Hook.Search calls before every search",
-		"sargon.Points.brdc0": "re-initialised by Points.Reset, which sargon.Hook.Search calls before every search",
-	}
+	// No exception is frozen any more. Until defect F29 the two fields of sargon.Points were excepted as
+	// "re-initialised by Points.Reset, which sargon.Hook.Search calls before every search": true for searches
+	// that run one after the other, false for a halted search that is still unwinding while its successor
+	// runs (Engine.Halt does not join) and for the console's re-search - both write the one shared baseline.
+	frozen := map[string]string{}
 	var bad []string
 	usedFrozen := map[string]bool{}
 	n := 0
@@ -331,12 +332,15 @@ func c18State(c *Ctx, reach map[*ssa.Function][]*ssa.Function) {
 		if allowedType(fs.Named) {
 			continue
 		}
+		if freshAtCallers(c, reach, fs.Fn, fs.Base, 0) {
+			continue // written through a parameter that is an object created by the search call itself
+		}
 		key := fs.Named.Obj().Pkg().Name() + "." + core.ObjName(fs.Named.Obj()) + "." + fs.Field
 		if _, ok := frozen[key]; ok {
 			usedFrozen[key] = true
 			continue
 		}
-		bad = append(bad, fmt.Sprintf("%s writes %s at %s (state that outlives the call)", c.P.FuncName(fs.Fn), key, c.pos(fs.Pos)))
+		bad = append(bad, fmt.Sprintf("%s writes %s at %s (state that outlives the call and is shared by every search that uses the same search value: a halted search still unwinding, the console's re-search or a second engine overwrite it while this search reads it)", c.P.FuncName(fs.Fn), key, c.pos(fs.Pos)))
 	}
 	// stores to package-level variables
 	for fn := range reach {
@@ -373,7 +377,10 @@ func c18State(c *Ctx, reach map[*ssa.Function][]*ssa.Function) {
 	// the frozen exception's justification: Hook.Search resets the evaluator first, on every path
 	hook := c.find("cmd/sargon/sargon", "Hook", "Search")
 	reset := c.find("cmd/sargon/sargon", "Points", "Reset")
-	if len(usedFrozen) > 0 {
+	if hook != nil && reset != nil {
+		for _, f := range []string{"side0", "brdc0"} {
+			usedFrozen["sargon.Points."+f] = true
+		}
 		good := false
 		if hook != nil && reset != nil {
 			var resetCall, delegate ssa.Instruction
@@ -627,4 +634,56 @@ func pureCall(call *ssa.Call, depth int) bool {
 		}
 	}
 	return true
+}
+
+// freshAtCallers: base is a parameter of fn, and at every call of fn from search code the argument is an
+// object the caller has just created (or, again, such a parameter of the caller).
+func freshAtCallers(c *Ctx, reach map[*ssa.Function][]*ssa.Function, fn *ssa.Function, base ssa.Value, depth int) bool {
+	for {
+		switch x := base.(type) {
+		case *ssa.FieldAddr:
+			base = x.X
+			continue
+		case *ssa.IndexAddr:
+			base = x.X
+			continue
+		}
+		break
+	}
+	prm, ok := base.(*ssa.Parameter)
+	if !ok || depth > 3 {
+		return false
+	}
+	idx := -1
+	for i, p := range fn.Params {
+		if p == prm {
+			idx = i
+		}
+	}
+	if idx < 0 {
+		return false
+	}
+	n := 0
+	for caller := range reach {
+		if caller.Blocks == nil || !c.P.IsRepoFunc(caller) {
+			continue
+		}
+		for _, b := range caller.Blocks {
+			for _, ins := range b.Instrs {
+				call, ok := ins.(ssa.CallInstruction)
+				if !ok || call.Common().StaticCallee() != fn || idx >= len(call.Common().Args) {
+					continue
+				}
+				n++
+				arg := call.Common().Args[idx]
+				if _, fresh := isFreshAlloc(arg); fresh {
+					continue
+				}
+				if !freshAtCallers(c, reach, caller, arg, depth+1) {
+					return false
+				}
+			}
+		}
+	}
+	return n > 0
 }
